@@ -34,4 +34,34 @@ def run_reg(chk, A, table_auth):
                     want = (bool(be), bool(bs), bool(uv))
                     if got != want:
                         chk.violation(f"registration: reported fields {got} != bits {want} for flags {f:#04x}", f"reg-fields flags={f:#04x}", {"flags": f, "impl": il[:300]})
+    # the other formats, with what their statements may legitimately vary (TPM object attributes and auth policy, certificate chain length, attestation key kind):
+    # none of it is consulted for the flag rules
+    TPM_ATTRS = [0x00050472, 0x00060472, 0, 0xFFFFFFFF, 0x00000040, 0x00000080, 0x000000C0, 0x00040072, 0x00020472, 0x00050432, 0x00010000, 0x00000002]
+    n = 0
+    for fmt in ("tpm", "packed", "android-key", "apple", "fido-u2f", "android-safetynet"):
+        for f in (0x41, 0x45, 0x44, 0x4D, 0x5D, 0x55, 0x40, 0xC5, 0x47, 0x65):
+            for ruv in (False, True):
+                for rup in (True, False):
+                    n += 1
+                    if fmt != "tpm" and (n % 3):
+                        continue
+                    s = regsim.RScn(fmt, "ES256-P256" if (fmt != "tpm" or n % 2) else "RS256", "RS256" if fmt == "tpm" and n % 4 < 2 else "ES256-P256")
+                    s.flags, s.require_uv, s.require_up = f, ruv, rup
+                    if fmt == "tpm":
+                        s.k["tpm_attrs"] = TPM_ATTRS[n % len(TPM_ATTRS)]
+                        s.k["tpm_auth_policy"] = (b"", bytes(32), b"\x01" * 32)[n % 3]
+                    s.n_inter = 0 if fmt == "fido-u2f" else n % 2
+                    try:
+                        pd, reg = regsim.build(s)
+                    except Exception:
+                        continue
+                    up, uv, be, bs, at = f & 1, f & 4, f & 8, f & 16, f & 64
+                    exp = (bool(up) or not rup) and (bool(uv) or not ruv) and bool(at) and not (bs and not be)
+                    il, ml = B.run_case(regrun.policy_of(pd), reg, "dict", "accept" if exp else "reject", f"create/{fmt} flags={f:#04x} uv_required={ruv} up_required={rup}", scn=s)
+                    if il.startswith("OK"):
+                        t = il.split()
+                        got = (t[9] == "T", t[10] == "T", t[7] == "T")
+                        want = (bool(be), bool(bs), bool(uv))
+                        if got != want:
+                            chk.violation(f"registration ({fmt}): reported fields {got} != bits {want} for flags {f:#04x}", f"reg-fields {fmt} flags={f:#04x}", {"flags": f, "fmt": fmt, "impl": il[:300]})
     B.close()
